@@ -172,7 +172,27 @@ def witness_attrpath_creation(prog, fn: ast.AST) -> bool:
                 elif not _fresh_empty_set_ctor(v):
                     return False
                 cur = norm(n.value.func.value)[:-len(".values")]
-                return bool(lp.body) and norm(lp.body[-1]) == f"{cur} = {b}.value"
+                if not (bool(lp.body) and norm(lp.body[-1]) == f"{cur} = {b}.value"):
+                    return False
+                # between the append and the step into the fresh set, a raise can only sit behind a test that the fresh binding
+                # falsifies by construction (`not b.nested`, `not isinstance(b.value, AttributeSet)`): a lookup in the set that
+                # was just appended to is still a lookup among the old siblings
+                from sa.cfg import CFG, edges_establishing
+                cfg = CFG(fn)
+                an, adv = cfg.node_of(n), cfg.node_of(lp.body[-1])
+                if an is None or adv is None:
+                    return False
+
+                def impossible(a, t):
+                    s_ = norm(a)
+                    if s_ == f"{b}.nested" and t is False:
+                        return True
+                    return isinstance(a, ast.Call) and callee(a) == "isinstance" and len(a.args) == 2 and norm(a.args[0]) == f"{b}.value" \
+                        and "AttributeSet" in norm(a.args[1]) and t is False
+
+                imp = edges_establishing(cfg, impossible)
+                before_step = cfg.reachable(an, removed_nodes=[adv], removed_edges=imp, follow_exc=False)
+                return not any(x.kind == "raise" for x in before_step)
     return False
 
 
